@@ -22,8 +22,9 @@ CLAIMED = {
 }
 
 CLAIMED['C14'] = (
-    'TLA+ spec HeapDict.tla model-checked (TopK, OutOK, ReadOnly); TLC-enumerated push histories replayed into the real '
-    'HeapDict; random runs of the real HeapDict trace-validated by HeapDictTrace.tla; search result lists judged by MMTrace.tla',
+    'TLA+ spec HeapDict.tla model-checked (TopK, OutOK, ReadOnly); TopK for unbounded histories as an inductive invariant '
+    '(HeapDictInd.tla, Apalache); TLC-enumerated push histories replayed into the real HeapDict; random runs of the real HeapDict '
+    'trace-validated by HeapDictTrace.tla; search result lists judged by MMTrace.tla',
     'Container: exhaustive over all push sequences within bounds (2 keys, 3 values x 2 tags, cap 0..3, length <= 4/5) at design '
     'level, every enumerated history replayed, plus event-by-event trace validation of long random runs with ties and '
     'str/int/float keys. Searches: cap and best-first order judged on every recorded result list.',
@@ -38,8 +39,10 @@ CLAIMED['C08'] = (
     'One series library (2 treatment x 3 control versions, 40 points) per seed; exact value comparison. ' + TRUST,
     'DESIGN.md section 4 C08')
 
-_MM = ('MMTrace.tla (contract over MMDefs.tla) batch-validates traces recorded from the real searches; numeric facts from the '
-       'independent oracle; design-level models MMImplX/MMImplG checked by TLC')
+_MM = ('MMTrace.tla (contract over MMDefs.tla) batch-validates traces recorded from the real searches (fresh objects, shared data '
+       'objects, decoy interference, post-search perturbation of caller-owned objects); numeric facts from the independent oracle; '
+       'design-level models MMImplX/MMImplG checked by TLC; hook events of both loops replayed against those models '
+       '(MMStepTrace / MMStepTraceG, drift notes)')
 _MMNOTE = ('Oracle (numpy/scipy, never imports the library) supplies ranks of score tuples, budget verdicts, optimistic budget '
            'classes, impact order; scipy t/F quantiles trusted; float thresholds judged only in generic position (margin 1e-9); '
            'design space = designs over the admitted geos. ' + TRUST)
@@ -77,7 +80,8 @@ CLAIMED['C15'] = ('TLA+ spec DataPanel.tla (Pivot/Means/Order/Shares/Reconcile/S
                   'DESIGN.md section 4 C15')
 
 CLAIMED['C11'] = ('TLA+ spec MMCount.tla: closed-form count = |generated pairs| = |declarative assignments| checked by TLC for all class-count '
-                  'vectors; a hash-selected residue class replayed into count_max_designs() and the real generators',
+                  'vectors; a hash-selected residue class replayed into count_max_designs() and the real generators; large panels against the '
+                  'declarative count in unbounded integers; MMStepTrace.tla: designs evaluated by recorded searches are generated pairs, at most count many',
                   'Exhaustive at design level over all class-count vectors up to the bound x 180 size/ratio settings (three definitions '
                   'compared); thousands of those instances realised as eligibility matrices: the real count must equal TLC\'s and the real '
                   'generator listing must be that many distinct legal pairs.',
